@@ -52,6 +52,11 @@ def gen(run):
         gsmtime.gen(run)
 
 
+# the public functions of the TDMA scheduler (tdma_sched.h): the harness links whatever file of layer1/ defines them
+TDMA_FUNCS = ["tdma_schedule", "tdma_schedule_set", "tdma_sched_execute", "tdma_sched_advance", "tdma_sched_reset",
+              "tdma_sched_flag_scan", "tdma_sched_dump", "tdma_end_set"]
+
+
 def build_harness(run, san=False):
     """the real tdma_sched.c + harness; san=True: tdma_sched.c instrumented with ASan/UBSan (array bounds)"""
     attr = "c08_exe_san" if san else "c08_exe"
@@ -59,14 +64,14 @@ def build_harness(run, san=False):
         return getattr(run, attr)
     sf = ["-fsanitize=address,undefined", "-fno-sanitize-recover=all"] if san else []
     suffix = "_san" if san else ""
-    ts = cbuild.firmware_obj(run, "layer1/tdma_sched.c", "tdma_sched" + suffix, extra_flags=FW_FLAGS + sf)
+    ts = cbuild.firmware_objs_for(run, "layer1/tdma_sched.c", TDMA_FUNCS, "tdma_sched" + suffix, extra_flags=FW_FLAGS + sf)
     h = cbuild.obj(run, os.path.join(vf.ROOT, "harness/c/c08_harness.c"), "c08_harness" + suffix,
                    flags=["-DHOST_BUILD"], includes=[cbuild.SHIM, cbuild.LIBOSMO_INC, cbuild.TOP_INC],
                    idirafter=[cbuild.FW_INC])
     if san:
-        exe = cbuild.link(run, [h, ts], "c08_harness_san.bin", flags=sf)
+        exe = cbuild.link(run, [h] + ts, "c08_harness_san.bin", flags=sf)
     else:
-        exe = cbuild.link(run, [h, ts], "c08_harness.bin", ignore_unresolved=True)
+        exe = cbuild.link(run, [h] + ts, "c08_harness.bin", ignore_unresolved=True)
     setattr(run, attr, exe)
     return exe
 
